@@ -273,7 +273,14 @@ fn link_burst(r: &mut Rng, _i: u64) -> Vec<String> {
                 recv_n += 1;
                 l.push(format!("recvmsg r{recv_n} {rn} p{p}"));
             }
-            12 | 13 => l.push("settle".into()),
+            12 => l.push("settle".into()),
+            13 => {
+                // drop whatever receive call is pending on this port (possibly inside return_flush)
+                l.push(format!("cancelcalls {rn} p{p} rx"));
+                if r.bool() {
+                    l.push("settle".into());
+                }
+            }
             14 => {
                 // stall / reopen a sink
                 let w = if r.bool() { "A" } else { "B" };
